@@ -39,7 +39,11 @@ pub mod fa {
     fn serde_owned(o: &m::OwnedRecord) -> String {
         let text = serde_json::to_string(o).unwrap();
         let back: m::OwnedRecord = serde_json::from_str(&text).unwrap();
-        format!("{{\"head\":{},\"seq\":{},\"qual\":[],\"eq\":{}}}", jb(&back.head), jb(&back.seq), back == *o)
+        // the shape of the serialised form (number of fields written) of this record and of a reference record whose fields are
+        // all non-empty: formats that are not self-describing read the fields by position
+        let nf = |r: &m::OwnedRecord| serde_json::to_value(r).ok().and_then(|v| v.as_object().map(|m| m.len())).unwrap_or(0);
+        let reference = m::OwnedRecord { head: vec![b'a'], seq: vec![b'A'] };
+        format!("{{\"head\":{},\"seq\":{},\"qual\":[],\"eq\":{},\"nf\":{},\"nf_ref\":{}}}", jb(&back.head), jb(&back.seq), back == *o, nf(o), nf(&reference))
     }
 
     pub fn owned_json(o: &m::OwnedRecord, serde: bool) -> String {
@@ -178,7 +182,9 @@ pub mod fq {
     fn serde_owned(o: &m::OwnedRecord) -> String {
         let text = serde_json::to_string(o).unwrap();
         let back: m::OwnedRecord = serde_json::from_str(&text).unwrap();
-        format!("{{\"head\":{},\"seq\":{},\"qual\":{},\"eq\":{}}}", jb(&back.head), jb(&back.seq), jb(&back.qual), back == *o)
+        let nf = |r: &m::OwnedRecord| serde_json::to_value(r).ok().and_then(|v| v.as_object().map(|m| m.len())).unwrap_or(0);
+        let reference = m::OwnedRecord { head: vec![b'a'], seq: vec![b'A'], qual: vec![b'I'] };
+        format!("{{\"head\":{},\"seq\":{},\"qual\":{},\"eq\":{},\"nf\":{},\"nf_ref\":{}}}", jb(&back.head), jb(&back.seq), jb(&back.qual), back == *o, nf(o), nf(&reference))
     }
 
     pub fn owned_json(o: &m::OwnedRecord, serde: bool) -> String {
